@@ -157,6 +157,48 @@ class Hierarchy:
         return int(b[1:]) in self.anc[int(a[1:])]
 
 
+class FlavouredHierarchy:
+    """Fixed hierarchies with an ABC that has a registered virtual subclass and / or a runtime
+    protocol with a structural implementer (same interface as Hierarchy)."""
+
+    _cache = {}
+
+    def __init__(self, flavour):
+        import abc as _abc
+
+        self.flavour = flavour
+        ns = {"__module__": "vtgen"}
+        K0 = type("K0", (), dict(ns, pm=lambda self: 1) if flavour in ("proto", "both") else dict(ns))
+        K1 = type("K1", (K0,), dict(ns))
+        K2 = type("K2", (), dict(ns))
+        classes = {"K0": K0, "K1": K1, "K2": K2}
+        if flavour in ("abc", "both"):
+            A = _abc.ABCMeta("A", (), dict(ns))
+            A.register(K2)
+            classes["A"] = A
+        if flavour in ("proto", "both"):
+            P = typing.runtime_checkable(type("P", (typing.Protocol,), dict(ns, pm=lambda self: 1)))
+            classes["P"] = P
+        if flavour == "both":
+            classes["K3"] = type("K3", (K1, K2), dict(ns))
+        self.names = [k for k in classes]
+        self.classes = dict(classes, O=object)
+        self.instances = {nm: (object() if nm == "O" else c()) for nm, c in self.classes.items() if nm not in ("A", "P")}
+        self.type_names = ["O"] + self.names
+        self.value_names = [n for n in self.type_names if n not in ("A", "P")]
+        self.n = len(self.names)
+
+    @classmethod
+    def get(cls, flavour):
+        h = cls._cache.get(flavour)
+        if h is None:
+            h = cls._cache[flavour] = cls(flavour)
+        return h
+
+    def spec(self):
+        return {"flavoured": self.flavour, "classes": self.names}
+
+
 # ----------------------------------------------------------------------------------------
 # method factories.  One generated source per (parameter list, body kind), cached per process;
 # every method of every program is a fresh closure instance of such a factory.
